@@ -307,6 +307,33 @@ func instrPre(c Core, i compiler.Instruction) bool {
 }
 
 // tryLens: the two handler stacks have the same height.
+// catchObj: the value a `catch` block receives describes the exception:
+// its message, and the position where the throw started.
+func catchObj(v value.Value, e value.Vm_NormalException) bool {
+	o, ok := v.(value.ValueObject)
+	if !ok {
+		return false
+	}
+	m, ok1 := o.FieldsInternal["message"]
+	l, ok2 := o.FieldsInternal["line"]
+	c, ok3 := o.FieldsInternal["column"]
+	f, ok4 := o.FieldsInternal["filename"]
+	if !ok1 || !ok2 || !ok3 || !ok4 || m == nil || l == nil || c == nil || f == nil {
+		return false
+	}
+	ms, ok1 := (*m).(value.ValueString)
+	li, ok2 := (*l).(value.ValueInt)
+	ci, ok3 := (*c).(value.ValueInt)
+	fs, ok4 := (*f).(value.ValueString)
+	if !ok1 || !ok2 || !ok3 || !ok4 {
+		return false
+	}
+	// (positions beyond 2^63 cannot occur: a source text is shorter than that)
+	lineOK := e.Span.Start.Line >= 1<<63 || li.Inner == int64(e.Span.Start.Line)
+	columnOK := e.Span.Start.Column >= 1<<63 || ci.Inner == int64(e.Span.Start.Column)
+	return ms.Inner == norm.NFC.String(e.MessageInternal) && lineOK && columnOK && fs.Inner == norm.NFC.String(e.Span.Filename)
+}
+
 func tryLens(c Core) bool { return len(c.tryStates) == len(c.ExceptionCatchLabels) }
 
 // fatalOf: i is a fatal runtime error of the given kind.
@@ -456,8 +483,14 @@ func terminationOf(i *value.VmInterrupt) bool {
 @*/
 
 /*@ func (self *Core) Run
-    serves C09, C10, C11, C02, C16
+    serves C01, C09, C10, C11, C02, C16
     assumepre runInstruction
+    assert @handler-of-live-frame after state := self.tryStates[ :: state.frameIndex < uint(len(self.CallStack))
+    assert @catch-frames after "message":  value.NewValueString :: uint(len(self.CallStack)) == state.frameIndex+1 && self.CallStack[len(self.CallStack)-1] == catchLocation
+    assert @catch-operands after "message":  value.NewValueString :: uint(len(self.Stack)) <= state.stackHeight+1
+    assert @catch-memory after "message":  value.NewValueString :: self.MemoryPointer == state.memoryPointer
+    assert @catch-object after "message":  value.NewValueString :: len(self.Stack) > 0 && self.Stack[len(self.Stack)-1] != nil && catchObj(*self.Stack[len(self.Stack)-1], throwError)
+    assert @uncaught-message after value.Vm_UncaughtThrowKind, throwError.Span :: len(self.ExceptionCatchLabels) == 0
     assume-unreachable Cannot execute instructions
     requires self.parent != nil && self.Program != nil && self.CancelCtx != nil && *self.CancelCtx != nil
     requires debuggerOut == nil && debuggerResume == nil
